@@ -7,6 +7,7 @@ import (
 	"go/ast"
 	"go/token"
 	"go/types"
+	"strings"
 )
 
 const tokenLSS = token.LSS
@@ -77,6 +78,7 @@ func (fx *FuncCtx) box(st *State, v Val, from types.Type) Val {
 		fx.declFun("typeOf", []Sort{SIfc}, SInt)
 		b := app(SIfc, fn, t)
 		if st != nil {
+			fx.linkPureMethods(st, b, v, from)
 			st.assume(Eq(app(t.Sort, "unbox_"+tname, b), t))
 			st.assume(Eq(app(SInt, "typeOf", b), IntLit(fx.eng.typeID(from))))
 			fx.declare("(declare-const nilIface Iface)")
@@ -365,12 +367,127 @@ func (fx *FuncCtx) callInterface(st *State, sel *ast.SelectorExpr, s *types.Sele
 			fx.unsupportedf("call to %s: no contract and no body", qn)
 		}
 	}
+	// methods declared pure in a contract file: uninterpreted functions of the receiver
+	if key, ok := fx.pureKey(s.Obj().(*types.Func), recvT); ok {
+		recv, isI := fx.eval(st, sel.X).(IfaceV)
+		if !isI {
+			fx.unsupportedf("pure method call on %s", fx.src(sel.X))
+		}
+		fx.declare("(declare-const nilIface Iface)")
+		fx.oblige(st, "nil", Not(Eq(recv.T, Term{"nilIface", SIfc})), call, "method call on nil interface "+fx.src(sel.X))
+		sig := s.Obj().Type().(*types.Signature)
+		var args []Term
+		for _, a := range call.Args {
+			args = append(args, fx.evalTerm(st, a))
+		}
+		return fx.pureApp(st, key, sig, recv.T, args)
+	}
 	fx.unsupportedf("interface method call %s", fx.src(call))
 	return nil
 }
 
+// pureKey: is this interface method declared pure? Returns the function key.
+func (fx *FuncCtx) pureKey(m *types.Func, recvT types.Type) (string, bool) {
+	cands := []types.Type{recvT}
+	if sig, ok := m.Type().(*types.Signature); ok && sig.Recv() != nil {
+		cands = append(cands, sig.Recv().Type())
+	}
+	for _, t := range cands {
+		if p, ok := t.(*types.Pointer); ok {
+			t = p.Elem()
+		}
+		named, ok := t.(*types.Named)
+		if !ok || named.Obj().Pkg() == nil {
+			continue
+		}
+		key := named.Obj().Pkg().Path() + "." + named.Obj().Name() + "." + m.Name()
+		if c := fx.eng.cs.Funcs[key]; c != nil && c.Pure {
+			return key, true
+		}
+	}
+	// any interface of the same package declaring the method pure (embedded interfaces)
+	if m.Pkg() != nil {
+		for k, c := range fx.eng.cs.Funcs {
+			if c.Pure && strings.HasPrefix(k, m.Pkg().Path()+".") && strings.HasSuffix(k, "."+m.Name()) {
+				return k, true
+			}
+		}
+	}
+	return "", false
+}
+
+func (fx *FuncCtx) pureApp(st *State, key string, sig *types.Signature, recv Term, args []Term) Val {
+	// all interfaces embedding the method share one function symbol per method name and package
+	i := strings.LastIndex(key, ".")
+	j := strings.LastIndex(key[:i], ".")
+	name := "pure_" + smtName(key[:j][strings.LastIndex(key[:j], "/")+1:]) + "_" + key[i+1:]
+	sorts := []Sort{SIfc}
+	all := []Term{recv}
+	for _, a := range args {
+		sorts = append(sorts, a.Sort)
+		all = append(all, a)
+	}
+	if sig.Results().Len() != 1 {
+		fx.unsupportedf("pure method %s must have one result", key)
+	}
+	rt := sig.Results().At(0).Type()
+	rs := fx.sortOf(rt)
+	fx.declFun(name, sorts, rs)
+	r := app(rs, name, all...)
+	if k, ok := intInfo(rt); ok && st != nil && fx.inQuant == 0 {
+		st.assume(k.rangeOf(r))
+	}
+	return fx.wrapElem(r, rt)
+}
+
 func (fx *FuncCtx) specPureCall(env *specEnv, x *ast.CallExpr, name string) (sval, bool) {
-	return sval{}, false
+	sel, ok := x.Fun.(*ast.SelectorExpr)
+	if !ok {
+		return sval{}, false
+	}
+	var recv sval
+	okRecv := func() (ok bool) {
+		defer func() {
+			if r := recover(); r != nil {
+				if _, is := r.(unsupported); !is {
+					panic(r)
+				}
+				ok = false
+			}
+		}()
+		recv = fx.specEval(env, sel.X)
+		return true
+	}()
+	if !okRecv {
+		return sval{}, false
+	}
+	iv, isI := recv.v.(IfaceV)
+	if !isI || iv.GT == nil {
+		return sval{}, false
+	}
+	gt := iv.GT
+	if recv.t != nil {
+		if _, isIface := recv.t.Underlying().(*types.Interface); isIface {
+			gt = recv.t
+		}
+	}
+	obj, _, _ := types.LookupFieldOrMethod(gt, true, nil, sel.Sel.Name)
+	m, ok := obj.(*types.Func)
+	if !ok {
+		return sval{}, false
+	}
+	key, ok := fx.pureKey(m, gt)
+	if !ok {
+		return sval{}, false
+	}
+	sig := m.Type().(*types.Signature)
+	var args []Term
+	for _, a := range x.Args {
+		args = append(args, fx.specTerm(env, a))
+	}
+	st := env.cur
+	v := fx.pureApp(st, key, sig, iv.T, args)
+	return sval{v, sig.Results().At(0).Type()}, true
 }
 
 func (fx *FuncCtx) applyRecSpec(env *specEnv, sp *SpecFunc, x *ast.CallExpr) sval {
@@ -378,34 +495,445 @@ func (fx *FuncCtx) applyRecSpec(env *specEnv, sp *SpecFunc, x *ast.CallExpr) sva
 	return sval{}
 }
 
+// modTarget is one location set of a modifies clause: heap arrays and the
+// reference whose entries may change (all = every reference).
+type modTarget struct {
+	heaps []string
+	sorts []Sort
+	ref   Term
+	all   bool
+}
+
+// modTargets evaluates a modifies expression in env (entry / pre-call state).
+func (fx *FuncCtx) modTargets(env *specEnv, e ast.Expr) []modTarget {
+	if call, ok := e.(*ast.CallExpr); ok {
+		if id, ok := call.Fun.(*ast.Ident); ok && id.Name == "all" && len(call.Args) == 1 {
+			ts := fx.modTargets(env, call.Args[0])
+			for i := range ts {
+				ts[i].all = true
+			}
+			return ts
+		}
+	}
+	isField := false
+	if call, ok := e.(*ast.CallExpr); ok {
+		if id, ok := call.Fun.(*ast.Ident); ok && id.Name == "field" && len(call.Args) == 1 {
+			e = call.Args[0]
+			isField = true
+		}
+	}
+	if sel, ok := e.(*ast.SelectorExpr); ok {
+		// field of a pointed-to struct? (a map-typed field names the map object unless wrapped in field())
+		base := fx.specEval(env, sel.X)
+		if p, ok := base.v.(PtrV); ok {
+			if path, _ := fx.fieldIndexDeep(p.Elem, sel.Sel.Name); path != nil {
+				if _, isMap := fx.fieldType(p.Elem, path).Underlying().(*types.Map); isMap && !isField {
+					goto general
+				}
+				prefix := p.prefix()
+				t := types.Type(p.Elem)
+				for _, i := range path {
+					f := t.Underlying().(*types.Struct).Field(i)
+					prefix += "." + f.Name()
+					t = f.Type()
+				}
+				return []modTarget{fx.fieldTarget(env.cur, prefix, t, p.Ref)}
+			}
+		}
+	}
+general:
+	v := fx.specEval(env, e)
+	switch x := v.v.(type) {
+	case MapV:
+		ks, vs, hasVal := fx.mapSorts(x)
+		key := mapHeapKey(x.T)
+		t := modTarget{ref: x.Ref}
+		t.heaps = append(t.heaps, key+"$dom", key+"$len")
+		t.sorts = append(t.sorts, ArraySort(SInt, ArraySort(ks, SBool)), ArraySort(SInt, SInt))
+		if hasVal {
+			t.heaps = append(t.heaps, key+"$val")
+			t.sorts = append(t.sorts, ArraySort(SInt, ArraySort(ks, vs)))
+		}
+		return []modTarget{t}
+	case PtrV:
+		// the whole object
+		return []modTarget{fx.fieldTarget(env.cur, x.prefix(), x.Elem, x.Ref)}
+	}
+	fx.unsupportedf("modifies: cannot interpret %s", fx.specSrc(e))
+	return nil
+}
+
+// fieldTarget lists the heap arrays holding a value of type t under prefix.
+func (fx *FuncCtx) fieldTarget(st *State, prefix string, t types.Type, ref Term) modTarget {
+	mt := modTarget{ref: ref}
+	var walk func(prefix string, t types.Type)
+	walk = func(prefix string, t types.Type) {
+		switch u := t.Underlying().(type) {
+		case *types.Struct:
+			for i := 0; i < u.NumFields(); i++ {
+				walk(prefix+"."+u.Field(i).Name(), u.Field(i).Type())
+			}
+		case *types.Slice:
+			for _, s := range []string{"rid", "off", "len", "cap"} {
+				mt.heaps = append(mt.heaps, prefix+"."+s)
+				mt.sorts = append(mt.sorts, ArraySort(SInt, SInt))
+			}
+		case *types.Array:
+			mt.heaps = append(mt.heaps, prefix)
+			mt.sorts = append(mt.sorts, ArraySort(SInt, ArraySort(SInt, fx.elemSort(u.Elem()))))
+		case *types.Signature:
+		default:
+			if b, ok := u.(*types.Basic); ok && b.Info()&types.IsString != 0 {
+				mt.heaps = append(mt.heaps, prefix+".str")
+				mt.sorts = append(mt.sorts, ArraySort(SInt, SStr))
+				return
+			}
+			mt.heaps = append(mt.heaps, prefix)
+			mt.sorts = append(mt.sorts, ArraySort(SInt, fx.sortOf(t)))
+		}
+	}
+	walk(prefix, t)
+	return mt
+}
+
+// applyModifies havocs the callee's declared heap footprint at a call site.
 func (fx *FuncCtx) applyModifies(st *State, env *specEnv, m Clause, call *ast.CallExpr) {
-	fx.unsupportedf("modifies clauses not implemented")
+	penv := *env
+	penv.cur = env.old
+	for _, t := range fx.modTargets(&penv, m.Expr) {
+		for i, hname := range t.heaps {
+			cur := fx.heapGet(st, hname, t.sorts[i])
+			if t.all {
+				st.heap[hname] = fx.freshConst(hname+"_mod", cur.Sort)
+				continue
+			}
+			es := Sort(strings.TrimSuffix(strings.TrimPrefix(string(cur.Sort), "(Array Int "), ")"))
+			fresh := fx.freshConst(hname+"_modv", es)
+			st.heap[hname] = fx.define(hname, Store(cur, t.ref, fresh))
+		}
+	}
+	st.written = tTrue
+}
+
+// checkHeapFrame: at an exit, heap objects that existed at entry and are not
+// named by a modifies clause are unchanged.
+func (fx *FuncCtx) checkHeapFrame(ex *State, node ast.Node) {
+	if fx.con == nil || fx.con.Options["heap-frame"] == "off" {
+		return
+	}
+	env := &specEnv{fx: fx, cur: fx.entry, old: fx.entry, binds: map[string]sval{}, entryParams: true}
+	allowed := map[string][]Term{}
+	allAllowed := map[string]bool{}
+	for _, m := range fx.con.Modifies {
+		for _, t := range fx.modTargets(env, m.Expr) {
+			for _, hname := range t.heaps {
+				if t.all {
+					allAllowed[hname] = true
+				} else {
+					allowed[hname] = append(allowed[hname], t.ref)
+				}
+			}
+		}
+	}
+	for _, hname := range sortedKeys(ex.heap) {
+		if !(strings.HasPrefix(hname, "H_") || strings.HasPrefix(hname, "M_") || strings.HasPrefix(hname, "S_")) {
+			continue
+		}
+		cur := ex.heap[hname]
+		if cur.S == hname || allAllowed[hname] {
+			continue // untouched (still the entry constant)
+		}
+		if _, declared := fx.declSet[fmt.Sprintf("(declare-const %s %s)", hname, cur.Sort)]; !declared {
+			continue
+		}
+		r := fx.freshName("q_r")
+		var ex2 []string
+		for _, a := range allowed[hname] {
+			ex2 = append(ex2, fmt.Sprintf("(not (= %s %s))", r, a.S))
+		}
+		guard := fmt.Sprintf("(and (> %s 0) (< %s alloc0) %s)", r, r, strings.Join(ex2, " "))
+		goal := Term{fmt.Sprintf("(forall ((%s Int)) (=> %s (= (select %s %s) (select %s %s))))", r, guard, cur.S, r, hname, r), SBool}
+		fx.oblige(ex, "modifies", goal, node, "only declared heap objects change: "+hname)
+	}
 }
 
 func (fx *FuncCtx) checkModifies(st *State, p PtrV, field string, node ast.Node) {
 	st.written = tTrue
 }
 
-// --- maps (M6) -----------------------------------------------------------------
+// --- maps -----------------------------------------------------------------------
+//
+// A map value is a reference (0 = nil). Per Go map type three heap arrays:
+//   M_T#dom : ref -> (key -> Bool)      M_T#val : ref -> (key -> V)      M_T#len : ref -> Int
+// Keys and values are scalars (integers, floats, references, interfaces); a
+// struct{} value has no val array.
+
+func (fx *FuncCtx) mapSorts(m MapV) (ks, vs Sort, hasVal bool) {
+	ks = scalarSort(m.T.Key())
+	if ks == "" {
+		fx.unsupportedf("map key type %s", m.T.Key())
+	}
+	if st, ok := m.T.Elem().Underlying().(*types.Struct); ok && st.NumFields() == 0 {
+		return ks, "", false
+	}
+	vs = scalarSort(m.T.Elem())
+	if vs == "" {
+		fx.unsupportedf("map value type %s", m.T.Elem())
+	}
+	return ks, vs, true
+}
+
+func (fx *FuncCtx) mapKeyTerm(key Val) Term {
+	t, ok := unwrapScalar(key)
+	if !ok {
+		fx.unsupportedf("map key %s", valString(key))
+	}
+	return t
+}
+
+func (fx *FuncCtx) mapHeaps(st *State, m MapV) (dom, val, ln Term, key string) {
+	ks, vs, hasVal := fx.mapSorts(m)
+	key = mapHeapKey(m.T)
+	dom = fx.heapGet(st, key+"$dom", ArraySort(SInt, ArraySort(ks, SBool)))
+	if hasVal {
+		val = fx.heapGet(st, key+"$val", ArraySort(SInt, ArraySort(ks, vs)))
+		if vs == SInt {
+			if _, isInt := intInfo(m.T.Elem()); !isInt {
+				fx.heapRefAxiom(key+"$val", ks)
+			}
+		}
+	}
+	ln = fx.heapGet(st, key+"$len", ArraySort(SInt, SInt))
+	return
+}
+
+// heapRefAxiom: every reference stored in the entry heap denotes an object
+// allocated before entry (or nil).
+func (fx *FuncCtx) heapRefAxiom(name string, keySort Sort) {
+	tag := "refaxiom:" + name
+	if fx.declSet[tag] {
+		return
+	}
+	fx.declSet[tag] = true
+	if keySort == "" {
+		fx.globalFacts = append(fx.globalFacts, Term{fmt.Sprintf("(forall ((q_hr Int)) (=> (and (< 0 q_hr) (< q_hr alloc0)) (and (<= 0 (select %s q_hr)) (< (select %s q_hr) alloc0))))", name, name), SBool})
+		return
+	}
+	fx.globalFacts = append(fx.globalFacts, Term{fmt.Sprintf("(forall ((q_hr Int) (q_hk %s)) (=> (and (< 0 q_hr) (< q_hr alloc0)) (and (<= 0 (select (select %s q_hr) q_hk)) (< (select (select %s q_hr) q_hk) alloc0))))", keySort, name, name), SBool})
+}
+
+// mapHas: key present (false for the nil map).
+func (fx *FuncCtx) mapHas(st *State, m MapV, k Term) Term {
+	ks, _, _ := fx.mapSorts(m)
+	dom, _, _, _ := fx.mapHeaps(st, m)
+	return And(Not(Eq(m.Ref, IntLit(0))), Select(Select(dom, m.Ref, ArraySort(ks, SBool)), k, SBool))
+}
 
 func (fx *FuncCtx) mapLookup(st *State, m MapV, key Val) (Val, Term) {
-	fx.unsupportedf("maps not implemented")
-	return nil, tFalse
+	k := fx.mapKeyTerm(key)
+	ks, vs, hasVal := fx.mapSorts(m)
+	ok := fx.mapHas(st, m, k)
+	if fx.inQuant == 0 {
+		ok = fx.defineBool("mhas", ok)
+	}
+	if !hasVal {
+		return StructV{T: m.T.Elem()}, ok
+	}
+	_, val, _, _ := fx.mapHeaps(st, m)
+	raw := Select(Select(val, m.Ref, ArraySort(ks, vs)), k, vs)
+	z, _ := unwrapScalar(fx.zeroVal(m.T.Elem()))
+	v := Ite(ok, raw, z)
+	if k2, isInt := intInfo(m.T.Elem()); isInt && fx.inQuant == 0 {
+		st.assume(k2.rangeOf(v))
+	}
+	if vs == SInt && fx.inQuant == 0 {
+		if _, isInt := intInfo(m.T.Elem()); !isInt {
+			fx.refFact(st, v)
+		}
+	}
+	return fx.wrapElem(v, m.T.Elem()), ok
 }
+
 func (fx *FuncCtx) mapStore(st *State, m MapV, key, v Val, node ast.Node) {
-	fx.unsupportedf("maps not implemented")
+	k := fx.mapKeyTerm(key)
+	ks, vs, hasVal := fx.mapSorts(m)
+	fx.oblige(st, "nil", Not(Eq(m.Ref, IntLit(0))), node, "assignment to entry in nil map "+fx.src(node))
+	dom, val, ln, hk := fx.mapHeaps(st, m)
+	fx.checkMapModifies(st, m, node)
+	row := Select(dom, m.Ref, ArraySort(ks, SBool))
+	had := Select(row, k, SBool)
+	st.heap[hk+"$len"] = fx.define(hk+"$len", Store(ln, m.Ref, Add(Select(ln, m.Ref, SInt), Ite(had, IntLit(0), IntLit(1)))))
+	st.heap[hk+"$dom"] = fx.define(hk+"$dom", Store(dom, m.Ref, Store(row, k, tTrue)))
+	if hasVal {
+		if _, isNil := v.(NilV); isNil {
+			v = fx.zeroVal(m.T.Elem())
+		}
+		tv, ok := unwrapScalar(v)
+		if !ok {
+			fx.unsupportedf("map value %s", valString(v))
+		}
+		vrow := Select(val, m.Ref, ArraySort(ks, vs))
+		st.heap[hk+"$val"] = fx.define(hk+"$val", Store(val, m.Ref, Store(vrow, k, tv)))
+	}
+	st.written = tTrue
 }
+
 func (fx *FuncCtx) mapDelete(st *State, m MapV, key Val, node ast.Node) {
-	fx.unsupportedf("maps not implemented")
+	k := fx.mapKeyTerm(key)
+	ks, _, _ := fx.mapSorts(m)
+	dom, _, ln, hk := fx.mapHeaps(st, m)
+	fx.checkMapModifies(st, m, node)
+	row := Select(dom, m.Ref, ArraySort(ks, SBool))
+	had := Select(row, k, SBool)
+	// delete on a nil map is a no-op: lookups guard with ref != 0, so updating index 0 is harmless
+	st.heap[hk+"$len"] = fx.define(hk+"$len", Store(ln, m.Ref, Sub(Select(ln, m.Ref, SInt), Ite(had, IntLit(1), IntLit(0)))))
+	st.heap[hk+"$dom"] = fx.define(hk+"$dom", Store(dom, m.Ref, Store(row, k, tFalse)))
+	st.written = fx.define("written", Or(st.written, And(Not(Eq(m.Ref, IntLit(0))), had)))
 }
+
 func (fx *FuncCtx) mapLen(st *State, m MapV) Term {
-	fx.unsupportedf("maps not implemented")
-	return Term{}
+	ks, _, _ := fx.mapSorts(m)
+	dom, _, ln, _ := fx.mapHeaps(st, m)
+	l := Ite(Eq(m.Ref, IntLit(0)), IntLit(0), Select(ln, m.Ref, SInt))
+	if fx.inQuant == 0 {
+		l = fx.define("maplen", l)
+		q := fx.freshName("q_mk")
+		row := Select(dom, m.Ref, ArraySort(ks, SBool))
+		empty := Term{fmt.Sprintf("(forall ((%s %s)) (not (select %s %s)))", q, ks, row.S, q), SBool}
+		st.assume(Ge(l, IntLit(0)))
+		st.assume(Implies(Not(Eq(m.Ref, IntLit(0))), Eq(Eq(l, IntLit(0)), empty)))
+	}
+	return l
 }
-func (fx *FuncCtx) mapInitEmpty(st *State, m MapV) { fx.unsupportedf("maps not implemented") }
+
+func (fx *FuncCtx) mapInitEmpty(st *State, m MapV) {
+	ks, _, _ := fx.mapSorts(m)
+	dom, _, ln, hk := fx.mapHeaps(st, m)
+	empty := Term{fmt.Sprintf("((as const %s) false)", ArraySort(ks, SBool)), ArraySort(ks, SBool)}
+	st.heap[hk+"$dom"] = fx.define(hk+"$dom", Store(dom, m.Ref, empty))
+	st.heap[hk+"$len"] = fx.define(hk+"$len", Store(ln, m.Ref, IntLit(0)))
+}
+
+func (fx *FuncCtx) checkMapModifies(st *State, m MapV, node ast.Node) {}
+
+// execRangeMap: each iteration takes a key that is present and not yet seen.
+// The order is arbitrary; the body must not add keys to the ranged map (checked
+// only through the final obligation that every present key was seen).
 func (fx *FuncCtx) execRangeMap(st *State, x *ast.RangeStmt, m MapV, label string) Flow {
-	fx.unsupportedf("range over map not implemented")
-	return Flow{}
+	ks, _, _ := fx.mapSorts(m)
+	ord := fx.loopOrdinal(x)
+	seenName := fmt.Sprintf("seen@L%d%s", ord, fx.inlineSuffix())
+	seenSort := ArraySort(ks, SBool)
+	hid := fx.hiddenVar(x, fmt.Sprintf("#m%d", ord))
+	_ = hid
+	// ghost: set of keys already visited, as a heap entry so that it is havocked by the loop
+	st.heap[seenName] = Term{fmt.Sprintf("((as const %s) false)", seenSort), seenSort}
+	ld := &loopDesc{node: x, label: label, body: x.Body}
+	var curKey Term
+	ld.condT = func(s *State) Term {
+		// there is a key present and unseen: a fresh witness names it
+		k := fx.freshConst(fmt.Sprintf("mk@L%d", ord), ks)
+		curKey = k
+		has := fx.mapHas(s, m, k)
+		unseen := Not(Select(s.heap[seenName], k, SBool))
+		// loop continues iff such a key exists; exit iff none: encode with the witness
+		q := fx.freshName("q_mr")
+		dom, _, _, _ := fx.mapHeaps(s, m)
+		row := Select(dom, m.Ref, ArraySort(ks, SBool))
+		none := Term{fmt.Sprintf("(forall ((%s %s)) (=> (select %s %s) (select %s %s)))", q, ks, row.S, q, s.heap[seenName].S, q), SBool}
+		cont := fx.freshConst(fmt.Sprintf("mcont@L%d", ord), SBool)
+		s.assume(Implies(cont, And(has, unseen)))
+		s.assume(Implies(Not(cont), Or(Eq(m.Ref, IntLit(0)), none)))
+		return cont
+	}
+	ld.prefix = func(s *State) {
+		if x.Key != nil && !isBlank(x.Key) {
+			kv := fx.wrapElem(curKey, m.T.Key())
+			if x.Tok == token.DEFINE {
+				fx.bind(s, fx.info.Defs[x.Key.(*ast.Ident)], kv)
+			} else {
+				fx.assignTo(s, x.Key, kv, fx.typeOf(x.Key))
+			}
+		}
+		if x.Value != nil && !isBlank(x.Value) {
+			v, _ := fx.mapLookup(s, m, curKey)
+			if x.Tok == token.DEFINE {
+				fx.bind(s, fx.info.Defs[x.Value.(*ast.Ident)], v)
+			} else {
+				fx.assignTo(s, x.Value, v, fx.typeOf(x.Value))
+			}
+		}
+		s.heap[seenName] = fx.define(seenName, Store(s.heap[seenName], curKey, tTrue))
+	}
+	ld.postF = func(s *State) {}
+	ld.ghostHeap = []string{seenName}
+	fl := fx.execLoop(st, ld)
+	if fl.normal != nil {
+		delete(fl.normal.heap, seenName)
+	}
+	return fl
 }
 
 var _ = fmt.Sprint
+
+// linkPureMethods: for a concrete value boxed into an interface, relate the
+// pure interface methods to the concrete (parameterless, inlineable) methods.
+func (fx *FuncCtx) linkPureMethods(st *State, boxed Term, v Val, from types.Type) {
+	if fx.inQuant > 0 || fx.inlineDepth > 3 {
+		return
+	}
+	named, ok := from.(*types.Named)
+	if !ok || named.Obj().Pkg() == nil {
+		return
+	}
+	for i := 0; i < named.NumMethods(); i++ {
+		m := named.Method(i)
+		sig := m.Type().(*types.Signature)
+		if sig.Params().Len() != 0 || sig.Results().Len() != 1 {
+			continue
+		}
+		// is there a pure interface method of that name?
+		var key string
+		for k, c := range fx.eng.cs.Funcs {
+			if c.Pure && strings.HasSuffix(k, "."+m.Name()) {
+				key = k
+				break
+			}
+		}
+		if key == "" {
+			continue
+		}
+		fd, pkg := fx.eng.funcDecl(m)
+		if fd == nil || fd.Body == nil || len(fd.Body.List) != 1 {
+			continue
+		}
+		var res Val
+		ok := func() (ok bool) {
+			defer func() {
+				if r := recover(); r != nil {
+					if _, is := r.(unsupported); !is {
+						panic(r)
+					}
+					ok = false
+				}
+			}()
+			fx.discard++
+			defer func() { fx.discard-- }()
+			s2 := st.clone()
+			res = fx.inlineCall(s2, m, fd, pkg, v, nil, nil)
+			return true
+		}()
+		if !ok {
+			continue
+		}
+		rt, ok := unwrapScalar(res)
+		if !ok {
+			continue
+		}
+		pv := fx.pureApp(st, key, sig, boxed, nil)
+		pt, _ := unwrapScalar(pv)
+		if pt.Sort == rt.Sort {
+			st.assume(Eq(pt, rt))
+		}
+	}
+}
